@@ -68,15 +68,30 @@ def verbose_logging(level="DEBUG"):
         logging.disable(old_disable)
 
 
+_LOCK_DEPTH = [0]
+
+
 @contextlib.contextmanager
 def lake_lock():
+    """exclusive lock on the lake workspace (re-entrant within one process): the translator output in lean/Batchie/Generated, `lake build`,
+    the axiom audit and the copy of the driver binary all happen under it, so that checks running concurrently -- possibly against
+    different source trees (BATCHIE_REPO) -- never see each other's generated files or half-linked binaries"""
+    if _LOCK_DEPTH[0] > 0:
+        _LOCK_DEPTH[0] += 1
+        try:
+            yield
+        finally:
+            _LOCK_DEPTH[0] -= 1
+        return
     os.makedirs(os.path.join(LEAN, ".lake"), exist_ok=True)
     path = os.path.join(LEAN, ".lake", "verif.lock")
     with open(path, "w") as f:
         fcntl.flock(f, fcntl.LOCK_EX)
+        _LOCK_DEPTH[0] = 1
         try:
             yield
         finally:
+            _LOCK_DEPTH[0] = 0
             fcntl.flock(f, fcntl.LOCK_UN)
 
 
